@@ -2754,6 +2754,16 @@ class AggregateBase(UnitsManaged, Saveable, OpenSystem):
             raise Exception("Aggregate must be built before"
                             +" get_DensityMatrix can be invoked.")
 
+        # energies are compared with kB*T in internal units below, so the
+        # Hamiltonian must not be read in the caller's units
+        if self.manager.get_current_units("energy") not in ("int", "1/fs"):
+            from ..core.managers import energy_units
+            with energy_units("int"):
+                return self.get_DensityMatrix(condition_type=condition_type,
+                       relaxation_theory_limit=relaxation_theory_limit,
+                       temperature=temperature,
+                       relaxation_hamiltonian=relaxation_hamiltonian, DD=DD)
+
         # if Aggregate has interaction with the bath, temperature
         # is already defined
         if temperature is None:
